@@ -356,7 +356,73 @@ fn main() {
                 Err(_) => v.key.ends_with("/panic-while-observing"),
             };
             if !reproduced {
-                vcommon::machinery_error(&format!("violation {} did not reproduce when its history was replayed", v.key));
+                // Is the code under test a function of the history at all? The same history executed
+                // again and again on fresh builders of this thread - alone, and after each of its
+                // own prefixes - must give the same lists and offsets every time (`execute` has no
+                // choice of its own). If it does not, the code keeps state between calls, and what
+                // the sweep saw is real although a file cannot replay it.
+                let obs = |hh: &[Step]| {
+                    std::panic::catch_unwind(std::panic::AssertUnwindSafe(|| {
+                        let e = execute(hh, naming);
+                        (e.variants.clone(), e.failure.clone())
+                    }))
+                    .ok()
+                };
+                let first = obs(&h);
+                let mut differs = false;
+                'probe: for _round in 0..3 {
+                    for k in 0..=h.len() {
+                        if k < h.len() {
+                            let _ = obs(&h[..k]);
+                        }
+                        if obs(&h) != first {
+                            differs = true;
+                            break 'probe;
+                        }
+                    }
+                }
+                if !differs {
+                    // the histories of the other violations of this run (and their prefixes) as
+                    // predecessors: they are what ran next to this one in the sweep
+                    let mut others: Vec<Vec<Step>> = run
+                        .violations
+                        .iter()
+                        .filter(|o| o.case["steps"].as_array().map_or(false, |a| !a.is_empty()))
+                        .take(200)
+                        .map(|o| history_from_json(&o.case))
+                        .collect();
+                    // and a few histories that leave holes of several widths behind (alignment
+                    // padding kept open by the append strategy, then one more close of each kind)
+                    for (a, b) in [(1u16, 8u16), (2, 8), (3, 4), (1, 16), (5, 8)] {
+                        for strat in 0..4u8 {
+                            let st = |add: Vec<Shape>, strat: u8| Step { remove: vec![], ghost: None, ghost_late: false, add, strat };
+                            others.push(vec![
+                                st(vec![Shape::new(a, 1), Shape::new(b, b), Shape::new(a, 1), Shape::new(b, b)], 2),
+                                st(vec![Shape::new(1, 1)], strat),
+                            ]);
+                        }
+                    }
+                    'probe2: for o in &others {
+                        for k in 1..=o.len() {
+                            let _ = obs(&o[..k]);
+                            if obs(&h) != first {
+                                differs = true;
+                                break 'probe2;
+                            }
+                        }
+                    }
+                }
+                if !differs {
+                    vcommon::machinery_error(&format!("violation {} did not reproduce when its history was replayed", v.key));
+                }
+                let mut v2 = v.clone();
+                v2.key = format!("{}/execution-depends-on-earlier-executions", v.key);
+                v2.what = format!(
+                    "{} [seen in the sweep and not reproduced by its history alone - but the same history, executed repeatedly on fresh builders of one thread, gives different lists / offsets: the code keeps state between calls]",
+                    v.what
+                );
+                report.add(v2);
+                continue;
             }
         }
         report.add(v);
